@@ -202,7 +202,7 @@ class UTPM(Ring, RawAlgorithmsMixIn):
         if not isinstance(shp, tuple): shp = (shp,)
         if not isinstance(x_shp, tuple): x_shp = (x_shp,)
 
-        y = UTPM(numpy.zeros((D,P) + x_shp + shp))
+        y = UTPM(numpy.zeros((D,P) + x_shp + shp, dtype=numpy.result_type(*[xi.data.dtype for xi in xr])))
 
         yr = UTPM( y.data.reshape((D,P) + (numpy.prod(x_shp, dtype=int),) + shp))
 
@@ -3133,7 +3133,7 @@ class UTPM(Ring, RawAlgorithmsMixIn):
             # hackish way to check that the input length of v makes sense
             raise ValueError('size of v does not match any possible symmetric matrix')
         N = (int(tmp) - 1)//2
-        A = cls(numpy.zeros((D,P,N,N)))
+        A = cls(numpy.zeros((D,P,N,N), dtype=v.data.dtype))
 
         count = 0
         for row in range(N):
